@@ -20,6 +20,9 @@ import (
 	"verifharness/kit/nat"
 	"verifharness/kit/pk"
 	cs "verifharness/synth/ccmsynth"
+	es "verifharness/synth/ethsynth"
+
+	polyeth "github.com/polynetwork/poly/native/service/header_sync/eth"
 )
 
 const startBlock = 18823000 // main-net start block of the hsc / bytom / harmony routers
@@ -32,7 +35,15 @@ type chainDef struct {
 
 var chainDefs = []chainDef{
 	{30, utils.VOTE_ROUTER, "vote"}, {31, utils.VOTE_ROUTER, "vote"}, {32, utils.VOTE_ROUTER, "vote"}, {33, utils.ETH_ROUTER, "eth"},
-	{34, utils.HSC_ROUTER, "hsc"}, {35, utils.BYTOM_ROUTER, "bytom"}, {36, utils.HARMONY_ROUTER, "harmony"},
+	{34, utils.HSC_ROUTER, "hsc"}, {35, utils.BYTOM_ROUTER, "bytom"}, {36, utils.HARMONY_ROUTER, "harmony"}, {37, utils.BSC_ROUTER, "bsc"},
+}
+
+// evmSrc: chains 33 (eth) and 37 (bsc) are proof-authenticated sources with a real light client
+// (trust root + headers installed in the template universe) and a pool of messages committed in
+// their world state per destination chain.
+type evmSrc struct {
+	s    *cs.EVMSource
+	pool map[uint64][]cs.EVMMessage
 }
 
 type hist struct {
@@ -49,6 +60,15 @@ type hist struct {
 	vm        *cs.VoteModel
 	bad       bool
 	shape     string
+	evm       map[uint64]*evmSrc
+	evmNext   map[string]int
+}
+
+func (h *hist) spec(id uint64) cs.ChainSpec {
+	if e := h.evm[id]; e != nil {
+		return e.s.Spec
+	}
+	return cs.ChainSpec{ID: id, Router: def(id).router}
 }
 
 func (h *hist) logf(f string, a ...interface{}) { h.trace = append(h.trace, fmt.Sprintf(f, a...)) }
@@ -73,12 +93,12 @@ func (h *hist) opRegister(id uint64, approve bool) {
 	d := def(id)
 	if h.reg[id] {
 		// registering a registered chain must not disturb it; the call is expected to be refused, no verdict here
-		rec := h.w.Register(cs.ChainSpec{ID: id, Router: d.router})
+		rec := h.w.Register(h.spec(id))
 		h.logf("register %d (already registered) -> ok=%v", id, rec.Ok)
 		return
 	}
 	if !h.pend[id] {
-		rec := h.w.Register(cs.ChainSpec{ID: id, Router: d.router})
+		rec := h.w.Register(h.spec(id))
 		h.logf("register %d router=%s -> ok=%v %s", id, d.name, rec.Ok, rec.Err)
 		if !rec.Ok {
 			h.r.Inconclusive("registerSideChain refused: " + rec.Err)
@@ -221,6 +241,10 @@ func (h *hist) opImport(src, dst uint64) {
 			return
 		}
 	}
+	if e := h.evm[src]; e != nil {
+		h.opImportEVM(e, src, dst)
+		return
+	}
 	sd := def(src)
 	height := h.w.E.Height
 	gated := (sd.router == utils.HSC_ROUTER || sd.router == utils.BYTOM_ROUTER || sd.router == utils.HARMONY_ROUTER) && height < startBlock
@@ -323,12 +347,77 @@ func (h *hist) opImport(src, dst uint64) {
 	}
 }
 
+// opImportEVM: one proof-authenticated import (eth / bsc source) of an unused committed message.
+func (h *hist) opImportEVM(e *evmSrc, src, dst uint64) {
+	r := h.r
+	name := def(src).name
+	k := fmt.Sprintf("%d/%d", src, dst)
+	msgs := e.pool[dst]
+	if h.evmNext[k] >= len(msgs) {
+		r.Count("evm_message_pool_exhausted", 1)
+		return
+	}
+	m := msgs[h.evmNext[k]]
+	h.evmNext[k]++
+	why := ""
+	switch {
+	case !h.reg[src]:
+		why = "source-unregistered"
+	case h.black[src]:
+		why = "source-blacklisted"
+	case !h.reg[dst]:
+		why = "destination-unregistered"
+	case h.black[dst]:
+		why = "destination-blacklisted"
+	}
+	h.shape += map[string]string{"": "E", "source-unregistered": "x", "source-blacklisted": "y", "destination-unregistered": "X", "destination-blacklisted": "Y"}[why]
+	restoring := why == "" && (h.justWhite[src] || h.justWhite[dst])
+	idx := h.rng.Intn(len(e.s.Heights) - 1)
+	o := h.w.Do(func() *nat.CallRecord { return e.s.Import(m, idx, nil) })
+	r.Eval(1)
+	h.logf("import %d(%s)->%d valid proof, expect-refusal=%q -> ok=%v err=%q touched=%v leaves=%d", src, name, dst, why, o.Rec.Ok, o.Rec.Err, o.Touched(), len(o.Rec.CrossHashes))
+	released := len(o.Rec.CrossHashes) > 0
+	if n, _, _ := o.TouchedUnder(scom.REQUEST); len(n) > 0 {
+		released = true
+	}
+	if why != "" {
+		if o.Rec.Ok || !o.Unchanged() || released {
+			dir := "from"
+			if why == "destination-unregistered" || why == "destination-blacklisted" {
+				dir = "to"
+			}
+			h.violation("import-"+dir+"-"+why+"-not-rejected", fmt.Sprintf("router %s: ok=%v touched=%v leaves=%d", name, o.Rec.Ok, o.Touched(), len(o.Rec.CrossHashes)))
+			return
+		}
+		r.Count("rejected:"+why, 1)
+		r.Count("rejected:"+why+":"+name, 1)
+		return
+	}
+	if o.Rec.Ok && released {
+		r.Count("accepted", 1)
+		r.Count("accepted:"+name, 1)
+		if restoring {
+			r.Count("accepted_after_whitelisting", 1)
+			r.Count("accepted_after_whitelisting:"+name, 1)
+		}
+	} else {
+		r.Count("open_gates_but_refused", 1)
+		if restoring {
+			h.violation("whitelisting-did-not-restore-imports", fmt.Sprintf("import %d(%s)->%d after WhiteChain: ok=%v err=%s", src, name, dst, o.Rec.Ok, o.Rec.Err))
+			return
+		}
+	}
+	delete(h.justWhite, src)
+	delete(h.justWhite, dst)
+}
+
 var pool = map[int]*tplT{}
 
 type tplT struct {
 	w    *cs.World
 	snap *cs.Snapshot
 	outs []*pk.Key
+	evm  map[uint64]*evmSrc
 	uses int
 }
 
@@ -341,14 +430,36 @@ func runHistory(r *kit.Run, rng *rand.Rand, nVals int, idx int) {
 			r.Inconclusive("world: " + err.Error())
 			return
 		}
-		t = &tplT{w: w, outs: pk.NewKeys(krng, 2)}
+		t = &tplT{w: w, outs: pk.NewKeys(krng, 2), evm: map[uint64]*evmSrc{}}
+		// the proof-authenticated sources: registered, light client installed, then quit again so that
+		// every history starts with an empty registry (the light-client state stays)
+		for _, d := range []struct {
+			kind string
+			id   uint64
+		}{{"eth", 33}, {"bsc", 37}} {
+			e := &evmSrc{s: w.NewEVMSource(krng, d.kind, d.id), pool: map[uint64][]cs.EVMMessage{}}
+			for _, cd := range chainDefs {
+				for i := 0; i < 5; i++ {
+					e.pool[cd.id] = append(e.pool[cd.id], e.s.Commit(krng, es.RandTxParam(krng, cd.id)))
+				}
+			}
+			if err := e.s.Seal(krng, 5); err != nil {
+				r.Inconclusive("evm source " + d.kind + ": " + err.Error())
+				return
+			}
+			if err := w.QuitAndApprove(d.id, nil); err != nil {
+				r.Inconclusive("evm source " + d.kind + " quit: " + err.Error())
+				return
+			}
+			t.evm[d.id] = e
+		}
 		t.snap = w.Snapshot()
 		pool[nVals] = t
 	}
 	t.uses++
 	t.w.Restore(t.snap)
 	h := &hist{r: r, rng: rng, w: t.w, outs: t.outs, reg: map[uint64]bool{}, pend: map[uint64]bool{}, black: map[uint64]bool{},
-		justWhite: map[uint64]bool{}, vm: cs.NewVoteModel()}
+		justWhite: map[uint64]bool{}, vm: cs.NewVoteModel(), evm: t.evm, evmNext: map[string]int{}}
 	hs := []uint32{startBlock - 2, startBlock - 1, startBlock, startBlock + 1, 5, 40000000}
 	h.w.E.Height = hs[rng.Intn(len(hs))]
 	ids := []uint64{}
@@ -399,8 +510,10 @@ func runHistory(r *kit.Run, rng *rand.Rand, nVals int, idx int) {
 		case k < 60:
 			h.opWhite(pick(), false)
 			h.shape += "w"
-		case k < 90:
+		case k < 82:
 			h.opImport(pickVote(), pick())
+		case k < 93:
+			h.opImport([]uint64{33, 37}[rng.Intn(2)], pick())
 		default:
 			h.opImport(pick(), pick())
 		}
@@ -419,7 +532,9 @@ func runHistory(r *kit.Run, rng *rand.Rand, nVals int, idx int) {
 func TestC21(t *testing.T) {
 	r := kit.Start(t, "C21", "exploration")
 	defer r.Finish()
-	r.Rule("histories of 30 operations on main-net id over 7 chain ids (3 VOTE-router, eth, hsc, bytom, harmony): register+approve, register only / approvals below quorum, quit+approve, quit request only, BlackChain / WhiteChain by the operator and by non-operators, imports (voting rounds with fresh messages) between random chain pairs; block height walks over the router start block 18,823,000; distinct = (N, sequence of operation kinds incl. the gate each import hit)")
+	r.Rule("histories of 30 operations on main-net id over 8 chain ids (3 VOTE-router, eth and bsc with a real light client and committed messages, hsc, bytom, harmony): register+approve, register only / approvals below quorum, quit+approve, quit request only, BlackChain / WhiteChain by the operator and by non-operators, imports (voting rounds with fresh messages) between random chain pairs; block height walks over the router start block 18,823,000; distinct = (N, sequence of operation kinds incl. the gate each import hit)")
+	polyeth.VerifSealBypass = true
+	defer func() { polyeth.VerifSealBypass = false }()
 	rng := r.Rand("histories")
 	nh := r.N(500, 18000)
 	for i := 0; i < nh && r.Violations() < 30; i++ {
@@ -427,10 +542,16 @@ func TestC21(t *testing.T) {
 	}
 	r.Assume("only the direction stated by the property is judged: an import whose source or destination is unregistered / blacklisted, or whose router is not yet active, must fail with unchanged state; plus: after WhiteChain (all other gates open) a valid import is accepted again. An import with all gates open that is refused for another reason is counted, not flagged")
 	r.Assume("the source gates apply to every call of a voting round; the destination gates apply to the deciding call (earlier votes only record themselves)")
-	r.Assume("valid deposits can only be built for VOTE-router sources here; for hsc / bytom / harmony sources the start-block gate is checked as 'every import below 18,823,000 fails with unchanged state' (above it the handlers refuse the synthetic proof, observation only) — a missing gate would not be distinguishable by state alone")
+	r.Assume("valid deposits are built for VOTE-router sources (votes) and for the eth and bsc sources (Merkle-Patricia proofs against synced headers); for hsc / bytom / harmony sources the start-block gate is checked as 'every import below 18,823,000 fails with unchanged state' (above it the handlers refuse the synthetic proof, observation only) — a missing gate would not be distinguishable by state alone")
 	n := int(r.Get("histories"))
 	r.Require("accepted", n)
 	r.Require("accepted_after_whitelisting", n/10)
+	r.Require("accepted:eth", n/20)
+	r.Require("accepted:bsc", n/20)
+	r.Require("rejected:source-blacklisted:eth", 1)
+	r.Require("rejected:source-blacklisted:bsc", 1)
+	r.Require("rejected:source-unregistered:eth", n/20)
+	r.Require("rejected:source-unregistered:bsc", n/20)
 	r.Require("rejected:source-unregistered", n/4)
 	r.Require("rejected:source-blacklisted", n/4)
 	r.Require("rejected:destination-unregistered", n/4)
